@@ -657,6 +657,8 @@ static int supervise(void (*gen) (long, int), long a, int b, const char * outpat
                 }
                 fclose(ef);
             }
+            if (strstr(san, "AddressSanitizer")) strcpy(kind, "asan");
+            else if (strstr(san, "runtime error")) strcpy(kind, "ubsan");
             n = strlen(sh->desc);
             if (!only || want(sh->cur)) {
                 k = (size_t) snprintf(rec, sizeof rec, "%.*s,\"crash\":\"%s\",\"san\":\"%s\"}\n", (int) n, sh->desc, kind, san);
